@@ -265,3 +265,66 @@ def srec_gen(rnd):
     t = [9, 8, 7][rnd.randrange(3)]
     recs.append((t, rnd.getrandbits(8 * {9: 2, 8: 3, 7: 4}[t]), b""))
     return recs
+
+
+# ---------------------------------------------------------------------------
+# PE (PE32 / PE32+) synthesis: the ground truth is the spec itself
+
+
+def pe_gen_spec(rnd):
+    plus = rnd.random() < 0.5
+    ndir = [16, 16, 16, 0, 2, 5, 10, 15][rnd.randrange(8)]
+    pad = [0, 0, 0, 8, 16, 0x20][rnd.randrange(6)]
+    falign = 0x200
+    salign = 0x1000
+    nsec = rnd.randrange(0, 5)
+    secs = []
+    rva = salign
+    for k in range(nsec):
+        raw = [0, 0x10, 0x200, 0x233, 0x400][rnd.randrange(5)]
+        vs = [raw, raw + 0x100, max(1, raw // 2), 0x1800][rnd.randrange(4)] if raw else 0x300
+        secs.append(dict(name=(".s%d" % k).encode() + bytes(rnd.randrange(0, 2)), vsize=vs, rva=rva, rawsize=raw, seed=rnd.getrandbits(16),
+                         chars=[0x60000020, 0xC0000040, 0x40000040, 0xC0000080][rnd.randrange(4)]))
+        rva += (max(vs, raw, 1) + salign - 1) // salign * salign
+    base = [0x400000, 0x10000000, 0x140000000 if plus else 0x1000000, 0x10000][rnd.randrange(4)]
+    ep = (secs[0]["rva"] + rnd.randrange(0, max(1, secs[0]["vsize"]))) if secs else 0
+    return dict(plus=plus, ndir=ndir, pad=pad, lfanew=[0x40, 0x80, 0xE8, 0x100][rnd.randrange(4)], machine=0x8664 if plus else 0x14C, secs=secs,
+                base=base, ep=ep, falign=falign, salign=salign, size_of_image=rva, stamp=rnd.getrandbits(32))
+
+
+def pe_build(spec):
+    """returns (bytes, truth) ; truth = dict(optsz, secs=[(name, vsize, rva, rawsize, rawptr)], ...)"""
+    plus = spec["plus"]
+    dos = bytearray(b"MZ" + bytes(spec["lfanew"] - 2))
+    struct.pack_into("<I", dos, 0x3C, spec["lfanew"])
+    optfixed = 112 if plus else 96
+    optsz = optfixed + 8 * spec["ndir"] + spec["pad"]
+    nsec = len(spec["secs"])
+    hdr_end = spec["lfanew"] + 24 + optsz + 40 * nsec
+    size_of_headers = (hdr_end + spec["falign"] - 1) // spec["falign"] * spec["falign"]
+    coff = b"PE\0\0" + struct.pack("<HHIIIHH", spec["machine"], nsec, spec["stamp"], 0, 0, optsz, 0x22 if plus else 0x102)
+    if plus:
+        opt = struct.pack("<HBBIIIII", 0x20B, 14, 0, 0x200, 0x200, 0, spec["ep"], 0x1000)
+        opt += struct.pack("<QIIHHHHHHIIIIHHQQQQII", spec["base"], spec["salign"], spec["falign"], 6, 0, 0, 0, 6, 0, 0, spec["size_of_image"], size_of_headers, 0, 3, 0x8160,
+                           0x100000, 0x1000, 0x100000, 0x1000, 0, spec["ndir"])
+    else:
+        opt = struct.pack("<HBBIIIIII", 0x10B, 14, 0, 0x200, 0x200, 0, spec["ep"], 0x1000, 0x2000)
+        opt += struct.pack("<IIIHHHHHHIIIIHHIIIIII", spec["base"], spec["salign"], spec["falign"], 6, 0, 0, 0, 6, 0, 0, spec["size_of_image"], size_of_headers, 0, 3, 0x8140,
+                           0x100000, 0x1000, 0x100000, 0x1000, 0, spec["ndir"])
+    assert len(opt) == optfixed, len(opt)
+    opt += bytes(8 * spec["ndir"]) + b"\xEE" * spec["pad"]
+    table = b""
+    raw = b""
+    ptr = size_of_headers
+    truth = []
+    for s in spec["secs"]:
+        rs = (s["rawsize"] + spec["falign"] - 1) // spec["falign"] * spec["falign"] if s["rawsize"] else 0
+        pr = ptr if rs else 0
+        body = bytes((s["seed"] + 7 * i) & 0xFF for i in range(s["rawsize"])) + bytes(rs - s["rawsize"])
+        raw += body
+        ptr += rs
+        table += struct.pack("<8sIIIIIIHHI", s["name"][:8], s["vsize"], s["rva"], rs, pr, 0, 0, 0, 0, s["chars"])
+        truth.append((s["name"][:8].rstrip(b"\0"), s["vsize"], s["rva"], rs, pr))
+    head = bytes(dos) + coff + opt + table
+    head += bytes(size_of_headers - len(head))
+    return head + raw, dict(optsz=optsz, secs=truth, base=spec["base"], ep=spec["ep"], machine=spec["machine"], magic=0x20B if plus else 0x10B, nsec=nsec)
